@@ -1,10 +1,11 @@
 // Driver for C11: the REAL pointer analysis of the repository (dataflow.NewInitializedAnalyzerState →
 // state.PointerAnalysis) on generated pointer programs versus
-//   (1) the Lean criteria `ptrClosed` / `cgClosed` (compiled oracle) on the dumped SSA facts + real
-//       points-to label sets + call graph  — result validation V2 (theorems closed_sound, may_alias_sound)
-//   (2) ground truth of a native run: addresses logged at probe points; same address at two probes of
-//       the same static type ⇒ real MayAlias must be true; address of a probed allocation ⇒ the
-//       allocation's label must be in the label set  — concrete search
+//
+//	(1) the Lean criteria `ptrClosed` / `cgClosed` (compiled oracle) on the dumped SSA facts + real
+//	    points-to label sets + call graph  — result validation V2 (theorems closed_sound, may_alias_sound)
+//	(2) ground truth of a native run: addresses logged at probe points; same address at two probes of
+//	    the same static type ⇒ real MayAlias must be true; address of a probed allocation ⇒ the
+//	    allocation's label must be in the label set  — concrete search
 package main
 
 import (
@@ -91,6 +92,24 @@ func checkProgram(rep *lib.Report, run *ptrrun.Result, pi int) {
 		content := ptrrun.Replay(run, m.Case, fmt.Sprintf("%s\n%d missed aliases in this program; criterion failures: %v\n", m.Text, len(missed), run.Fails))
 		rep.Fail(fmt.Sprintf("missed-alias:%s", m.Key), "objects are the same at run time but the pointer analysis says they cannot alias: "+m.Short, content, false)
 	case !closed:
+		// targeted search: programs concentrated on the instruction kinds whose rule failed
+		if focus := ptrrun.FocusOf(run); len(focus) > 0 && os.Getenv("VERIF_C11_NOFOCUS") == "" {
+			for round := 0; round < 2; round++ {
+				fr := lib.Rand(fmt.Sprintf("c11-focus-%d-%d", pi, round))
+				fp := gen.GenPtrProg(fr, gen.PtrOpts{Cases: 40, Stmts: 8, Funcs: 2, Focus: focus})
+				frun := ptrrun.Run("C11", fmt.Sprintf("focus%d_%d", pi, round), fp, rep)
+				if frun == nil {
+					continue
+				}
+				rep.Extra["focused_programs"] = intOf(rep.Extra["focused_programs"]) + 1
+				if fm := ptrrun.MissedAliases(frun); len(fm) > 0 {
+					m := fm[0]
+					content := ptrrun.Replay(frun, m.Case, fmt.Sprintf("%s\nfound by the targeted search (focus %v) after the closure criterion failed on a generated program: %s\n", m.Text, focus, strings.Join(run.FailText(4), " | ")))
+					rep.Fail(fmt.Sprintf("missed-alias:%s", m.Key), "objects are the same at run time but the pointer analysis says they cannot alias: "+m.Short, content, false)
+					return
+				}
+			}
+		}
 		what := fmt.Sprintf("the real points-to result does not satisfy the closure criterion (ptr=%v cg=%v missing-queries=%d bad-records=%d): %s; no run-time alias was missed on the executed inputs",
 			run.PtrClosed, run.CgClosed, len(d.MissingQuery), run.BadRecords, strings.Join(run.FailText(6), " | "))
 		c := -1
